@@ -97,3 +97,19 @@ pub proof fn lemma_pack_index{X}(l: int, k: int)
     vstd::arithmetic::div_mod::lemma_fundamental_div_mod(k, {I.bytes});
     vstd::arithmetic::div_mod::lemma_fundamental_div_mod_converse(l * {I.bytes} - 1 - k, {I.bytes}, l - 1 - k / {I.bytes}, {I.bytes} - 1 - k % {I.bytes});
 }
+/// the padding of the dynamic implementation: n + offset is the whole number of words
+pub proof fn lemma_pack_offset{X}(n: int)
+    requires 0 <= n
+    ensures n + ({I.bytes} - n % {I.bytes}) % {I.bytes} == ((n + {I.bytes} - 1) / {I.bytes}) * {I.bytes}
+{
+    vstd::arithmetic::div_mod::lemma_fundamental_div_mod(n, {I.bytes});
+    let q = n / {I.bytes};
+    let r = n % {I.bytes};
+    if r == 0 {
+        assert(({I.bytes} - r) % {I.bytes} == 0) by { vstd::arithmetic::div_mod::lemma_fundamental_div_mod_converse({I.bytes} - r, {I.bytes}, 1, 0); }
+        vstd::arithmetic::div_mod::lemma_fundamental_div_mod_converse(n + {I.bytes} - 1, {I.bytes}, q, {I.bytes} - 1);
+    } else {
+        assert(({I.bytes} - r) % {I.bytes} == {I.bytes} - r) by { vstd::arithmetic::div_mod::lemma_fundamental_div_mod_converse({I.bytes} - r, {I.bytes}, 0, {I.bytes} - r); }
+        vstd::arithmetic::div_mod::lemma_fundamental_div_mod_converse(n + {I.bytes} - 1, {I.bytes}, q + 1, r - 1);
+    }
+}
